@@ -43,15 +43,25 @@ def rows_spec(draw, tier, lo, hi, zero="some", units=None, maxn=None, sizes=None
     size_class = min(size_class, cap)
     # sizes are spread over the upper half of the class so that one-row arrays stay rare
     n = draw(st.integers(max(1, size_class // 2), size_class)) if draw(st.integers(0, 3)) else draw(st.integers(1, size_class))
+    # hand the notes over as a Part / PerformedPart (documented input types): the case is then built to fit into one
+    container = draw(st.sampled_from(["array", "array", "array", "object"]))
+    as_object = container == "object"
     unit = draw(st.sampled_from(units or ["beat", "beat", "beat", "sec", "sec", "quarter", "div", "tick"]))
-    extra = draw(st.sampled_from(["none", "id", "id", "full"]))
+    if as_object and unit == "tick":
+        unit = "sec"
+    # "mixed": score columns plus performance columns that say something else (documented: score preferred)
+    extra = draw(st.sampled_from(["none", "id", "id", "full"] + (["mixed", "mixed"] if unit in SCORE_UNITS else [])))
     kind = "grid" if unit in INT_UNITS else draw(st.sampled_from(["grid", "grid", "grid", "float"]))
+    if as_object and unit in SCORE_UNITS:
+        kind = "grid"  # a score part lives on a grid of divisions
     if zero == "never":
         allow_zero = False
     elif zero == "often":
         allow_zero = draw(st.booleans())
     else:
         allow_zero = draw(st.integers(0, 2)) == 0
+    if as_object and unit in SCORE_UNITS:
+        allow_zero = False  # no zero-length notes in a score part
     # pitch material
     style = draw(st.sampled_from(["uniform", "scale", "scale", "narrow"]))
     if style == "scale":
@@ -73,6 +83,8 @@ def rows_spec(draw, tier, lo, hi, zero="some", units=None, maxn=None, sizes=None
         # a small onset span makes simultaneous and overlapping notes frequent
         span = draw(st.sampled_from([1, 2, max(2, n // 2), max(2, n), 2 * n + 2]))
         shift = draw(st.sampled_from([0, 0, 0, 0, -span, 7])) if unit in ("beat", "quarter") else 0
+        if as_object:
+            shift = max(shift, 0)  # parts start at or after 0
         durs = [1, 1, 2, 2, 3, 4, 4, 6, 8, 16, 5, 7]
         if allow_zero:
             durs = durs + [0, 0, 0, 0]
@@ -93,7 +105,17 @@ def rows_spec(draw, tier, lo, hi, zero="some", units=None, maxn=None, sizes=None
     rows = [list(r) for r in rows]
     if order == "onset-sorted":
         rows.sort(key=lambda r: (r[0], r[2]))
-    return {"unit": unit, "extra": extra, "time": kind, "den": den, "rows": rows}
+    return {
+        "unit": unit,
+        "extra": extra,
+        "time": kind,
+        "den": den,
+        "rows": rows,
+        # 8 byte columns (what the MIDI importer builds) instead of the 4 byte ones of note_array()
+        "wide": draw(st.integers(0, 3)) == 0,
+        # hand the notes over as a Part / PerformedPart (documented input types) where they fit into one
+        "container": container,
+    }
 
 
 def times(spec):
@@ -123,18 +145,24 @@ def build_array(spec, pitch_shift=0, dur_scale=None, order=None):
     n = len(on)
     pitch = [int(r[2]) + pitch_shift for r in spec["rows"]]
     isint = unit in INT_UNITS
-    tdt = "i4" if isint else "f4"
+    wide = bool(spec.get("wide"))
+    tdt = ("i8" if wide else "i4") if isint else ("f8" if wide else "f4")
+    pdt = "i8" if wide else "i4"
     of, df = time_fields(spec)
     if dur_scale is not None:
         if isint:
             du = [int(d * dur_scale) for d in du]
         else:
-            du = list(np.asarray(du, dtype="f4") * np.float32(dur_scale))
+            # in the column's own precision, so that a power of two scales every stored value exactly
+            du = list(np.asarray(du, dtype=tdt) * np.dtype(tdt).type(dur_scale))
     extra = spec.get("extra", "none")
     if extra == "none":
-        dtype = [(of, tdt), (df, tdt), ("pitch", "i4")]
+        dtype = [(of, tdt), (df, tdt), ("pitch", pdt)]
     elif extra == "id":
-        dtype = [(of, tdt), (df, tdt), ("pitch", "i4"), ("id", "U256")]
+        dtype = [(of, tdt), (df, tdt), ("pitch", pdt), ("id", "U256")]
+    elif extra == "mixed":
+        dtype = [("onset_sec", "f4"), ("duration_sec", "f4"), ("onset_tick", "i4"), ("duration_tick", "i4"),
+                 (of, tdt), (df, tdt), ("pitch", pdt), ("id", "U256")]
     elif unit in SCORE_UNITS:
         dtype = [
             ("onset_beat", "f4"), ("duration_beat", "f4"), ("onset_quarter", "f4"), ("duration_quarter", "f4"),
@@ -158,6 +186,12 @@ def build_array(spec, pitch_shift=0, dur_scale=None, order=None):
             arr["velocity"] = 64
         if "voice" in arr.dtype.names:
             arr["voice"] = 1
+    if extra == "mixed":
+        # performance columns that contradict the score columns: other order of onsets, other durations
+        arr["onset_sec"] = [float(n - i) * 0.5 for i in range(n)]
+        arr["duration_sec"] = [0.25 + (i * 7 % 5) for i in range(n)]
+        arr["onset_tick"] = [(n - i) * 240 for i in range(n)]
+        arr["duration_tick"] = [120 + 480 * (i * 7 % 5) for i in range(n)]
     arr[of] = on
     arr[df] = du
     arr["pitch"] = pitch
@@ -166,6 +200,37 @@ def build_array(spec, pitch_shift=0, dur_scale=None, order=None):
     if order is not None:
         arr = arr[np.asarray(order, dtype=int)]
     return arr
+
+
+PC_SPELL = [("C", 0), ("C", 1), ("D", 0), ("E", -1), ("E", 0), ("F", 0), ("F", 1), ("G", 0), ("A", -1), ("A", 0), ("B", -1), ("B", 0)]
+
+
+def object_input(spec):
+    """(object, effective rows spec) for a rows spec that fits into a PerformedPart (seconds, onsets >= 0) or a
+    Part (score unit on a grid, onsets >= 0, durations > 0); None otherwise.  The effective spec describes the
+    columns the analysis functions will read from the object's own note array (seconds / beats)."""
+    import partitura.performance as PF
+    import partitura.score as SC
+
+    unit = spec["unit"]
+    on, du = times(spec)
+    if not on or min(on) < 0:
+        return None
+    if unit == "sec":
+        notes = [
+            dict(id="n%d" % i, midi_pitch=int(r[2]), note_on=float(a), note_off=float(a) + float(d), velocity=64, channel=1, track=0)
+            for i, (r, a, d) in enumerate(zip(spec["rows"], on, du))
+        ]
+        return PF.PerformedPart(notes), dict(spec, extra="full", wide=False), "PerformedPart"
+    if unit not in SCORE_UNITS or spec["time"] != "grid" or min(du) <= 0:
+        return None
+    qd = 4 if unit == "div" else int(spec["den"])
+    part = SC.Part("P0", quarter_duration=qd)
+    for i, r in enumerate(spec["rows"]):
+        step, alter = PC_SPELL[int(r[2]) % 12]
+        part.add(SC.Note(step=step, octave=int(r[2]) // 12 - 1, alter=alter, id="n%d" % i, voice=1), int(r[0]), int(r[0]) + int(r[1]))
+    # without a time signature a beat is a quarter: onset_beat = k / qd
+    return part, dict(spec, unit="beat", time="grid", den=qd, extra="full", wide=False), "Part"
 
 
 def permutation(keys, n):
@@ -204,7 +269,8 @@ def midi_spec(draw, tier):
     n = draw(st.integers(max(1, size_class // 2), size_class))
     ppq = draw(st.sampled_from([4, 12, 24, 96, 480, 480]))
     unit = draw(st.sampled_from([u for u in (ppq // 4, ppq // 3, ppq // 2, ppq) if u >= 1 and ppq % u == 0]))
-    ntracks = draw(st.sampled_from([1, 1, 2, 3]))
+    format0 = draw(st.integers(0, 4)) == 0  # a single-track file in MIDI format 0
+    ntracks = 1 if format0 else draw(st.sampled_from([1, 1, 2, 3]))
     nch = draw(st.sampled_from([1, 1, 2, 3]))
     allow_zero = draw(st.integers(0, 2)) == 0
     span = draw(st.sampled_from([1, 3, max(2, n), 2 * n + 2]))
@@ -223,7 +289,7 @@ def midi_spec(draw, tier):
         st.integers(0, nch - 1),
     )
     notes = normalise_midi_notes(draw(st.lists(note, min_size=n, max_size=n)))
-    ts = draw(st.sampled_from(["global", "global", "track0", "alltracks", "none"]))
+    ts = draw(st.sampled_from(["track0", "alltracks", "none"] if format0 else ["global", "global", "track0", "alltracks", "none"]))
     sig = draw(st.sampled_from([[4, 4], [3, 4], [6, 8], [2, 2], [5, 4]]))
     return {
         "ppq": ppq,
@@ -233,15 +299,32 @@ def midi_spec(draw, tier):
         "sig": sig,
         "mode": draw(st.integers(0, 5)),
         "keysig": draw(st.sampled_from([None, None, "C", "F#m", "Eb"])),
-        "tempo": draw(st.sampled_from([None, 500000, 400000])),
+        "tempo": None if format0 else draw(st.sampled_from([None, 500000, 400000])),
+        # file shapes of real MIDI files: a note ended by note_on with velocity 0; other messages with their own
+        # delta times between the notes; format 0 where there is a single track
+        "off_as_on0": draw(st.sampled_from([0, 0, 1, 2])),  # 0 never, 1 always, 2 every other note
+        "other_messages": draw(st.integers(0, 2)) == 0,
+        "format0": format0,
+        # how the file is handed over and which documented options accompany it
+        "handover": draw(st.sampled_from(["str", "str", "pathlib", "midofile", "midofile-in-memory"])),
+        "omit_defaults": draw(st.booleans()),
+        "quantization": draw(st.sampled_from([None, None, "grid", 1])),
+        "assign_note_ids": draw(st.sampled_from([True, True, False])),
     }
 
 
-def write_midi(spec, path):
+def single_track_file(spec):
+    """True when the file of this spec consists of exactly one track (then format 0 can hold it)."""
+    meta = spec["timesig"] == "global" or spec.get("tempo") or (spec.get("keysig") and spec["timesig"] == "global")
+    return int(spec["ntracks"]) == 1 and not meta
+
+
+def write_midi(spec, path, return_object=False):
     """Write the MIDI file described by a midi spec (type 1, one meta track when timesig == 'global')."""
     import mido
 
-    mid = mido.MidiFile(type=1, ticks_per_beat=int(spec["ppq"]))
+    fmt = 0 if (spec.get("format0") and single_track_file(spec)) else 1
+    mid = mido.MidiFile(type=fmt, ticks_per_beat=int(spec["ppq"]))
     num, den = spec["sig"]
     if spec["timesig"] == "global" or spec.get("tempo") or (spec.get("keysig") and spec["timesig"] == "global"):
         tr = mido.MidiTrack()
@@ -272,12 +355,35 @@ def write_midi(spec, path):
         if spec.get("keysig") and spec["timesig"] != "global":
             tr.append(mido.MetaMessage("key_signature", key=spec["keysig"], time=0))
         now = 0
+        style = int(spec.get("off_as_on0") or 0)
+        others = bool(spec.get("other_messages"))
+        if others:
+            tr.append(mido.MetaMessage("track_name", name="track %d" % t, time=0))
+            tr.append(mido.Message("program_change", program=t, channel=0, time=0))
+        k = 0
         for (tt, _, _, kind, p, ch) in ev:
+            delta = tt - now
+            if others and delta >= 2:
+                # messages the importer does not use, each carrying part of the waiting time
+                a = delta // 2
+                tr.append(mido.Message("control_change", control=64, value=(k * 37) % 128, channel=ch, time=a))
+                if k % 3 == 0:
+                    tr.append(mido.Message("pitchwheel", pitch=(k * 211) % 8000 - 4000, channel=ch, time=0))
+                if k % 4 == 1:
+                    tr.append(mido.MetaMessage("text", text="x", time=0))
+                delta -= a
             if kind == "on":
-                tr.append(mido.Message("note_on", note=p, velocity=64, channel=ch, time=tt - now))
+                tr.append(mido.Message("note_on", note=p, velocity=64, channel=ch, time=delta))
+            elif style == 1 or (style == 2 and k % 2 == 0):
+                tr.append(mido.Message("note_on", note=p, velocity=0, channel=ch, time=delta))
             else:
-                tr.append(mido.Message("note_off", note=p, velocity=0, channel=ch, time=tt - now))
+                tr.append(mido.Message("note_off", note=p, velocity=0, channel=ch, time=delta))
             now = tt
+            k += 1
+        if others:
+            tr.append(mido.MetaMessage("end_of_track", time=3))
         mid.tracks.append(tr)
+    if return_object:
+        return mid
     mid.save(path)
     return path
